@@ -82,6 +82,94 @@ func freshPerIteration(v ssa.Value, loopBody map[*ssa.BasicBlock]bool, seen map[
 	return false, fmt.Sprintf("unexpected source %T", v)
 }
 
+// calleeArgAt: what does the call site `site` of the helper `helper` supply for the k-th argument of the call `inner`
+// (a call inside the helper)? The inner argument is a parameter of the helper, or a field of a struct parameter
+// (an options/operation struct passed by value); in the second case the struct is a local composite at the site and the
+// field's value is what was stored into it (zero == true when the literal leaves the field out).
+func calleeArgAt(site *ssa.Call, helper *ssa.Function, inner *ssa.Call, k int) (v ssa.Value, zero bool, ok bool) {
+	if k >= len(inner.Call.Args) {
+		return nil, false, false
+	}
+	paramIdx := func(x ssa.Value) int {
+		x = unspill(x)
+		for i, p := range helper.Params {
+			if ssa.Value(p) == x {
+				return i
+			}
+		}
+		return -1
+	}
+	a := inner.Call.Args[k]
+	if i := paramIdx(a); i >= 0 && i < len(site.Call.Args) {
+		return site.Call.Args[i], false, true
+	}
+	field, pi := -1, -1
+	switch x := a.(type) {
+	case *ssa.Field:
+		field, pi = x.Field, paramIdx(x.X)
+	case *ssa.UnOp:
+		if fa, isFA := x.X.(*ssa.FieldAddr); isFA && x.Op == token.MUL {
+			if al, isAl := fa.X.(*ssa.Alloc); isAl {
+				// a spilled by-value parameter: the cell is initialised from the parameter
+				if refs := al.Referrers(); refs != nil {
+					for _, ref := range *refs {
+						if st, isSt := ref.(*ssa.Store); isSt && st.Addr == ssa.Value(al) {
+							if i := paramIdx(st.Val); i >= 0 {
+								field, pi = fa.Field, i
+							}
+						}
+					}
+				}
+			}
+		}
+	}
+	if field < 0 || pi < 0 || pi >= len(site.Call.Args) {
+		return nil, false, false
+	}
+	ld, isLd := site.Call.Args[pi].(*ssa.UnOp)
+	if !isLd || ld.Op != token.MUL {
+		return nil, false, false
+	}
+	al, isAl := ld.X.(*ssa.Alloc)
+	if !isAl {
+		return nil, false, false
+	}
+	var found ssa.Value
+	n := 0
+	if refs := al.Referrers(); refs != nil {
+		for _, ref := range *refs {
+			fa, isFA := ref.(*ssa.FieldAddr)
+			if !isFA {
+				if ref != ssa.Instruction(ld) {
+					if _, isDbg := ref.(*ssa.DebugRef); !isDbg {
+						return nil, false, false // the struct escapes or is written as a whole: not decided
+					}
+				}
+				continue
+			}
+			if fr := fa.Referrers(); fr != nil {
+				for _, r2 := range *fr {
+					st, isSt := r2.(*ssa.Store)
+					if !isSt || st.Addr != ssa.Value(fa) {
+						return nil, false, false
+					}
+					if fa.Field == field {
+						found = st.Val
+						n++
+					}
+				}
+			}
+		}
+	}
+	if n == 0 {
+		return nil, true, true
+	}
+	if n > 1 {
+		return nil, false, false
+	}
+	return found, false, true
+}
+
 func ruleTTL1(c *Ctx, r *Reporter) {
 	fn := c.lookupSSA(pkgLungo, "Transaction.Expire")
 	del := c.lookupFunc(pkgLungo, "Transaction.delete")
@@ -101,6 +189,23 @@ func ruleTTL1(c *Ctx, r *Reporter) {
 		r.bad("Expire:delete", c.pos(fn.Pos()), "Expire does not delete through t.delete")
 		return
 	}
+	// what the site supplies for the receiver and the four arguments of Collection.Delete inside t.delete
+	// (t.delete may take them one by one or bundled in a struct such as Operation)
+	delFn := c.lookupSSA(pkgLungo, "Transaction.delete")
+	collDelete := c.lookupFunc(pkgMongokit, "Collection.Delete")
+	var inner *ssa.Call
+	if delFn != nil {
+		allInstrs(delFn, func(in ssa.Instruction) {
+			if call, ok := in.(*ssa.Call); ok && collDelete != nil && calleeObj(&call.Call) == collDelete {
+				inner = call
+			}
+		})
+	}
+	if inner == nil {
+		r.bad("Expire:delete", c.pos(fn.Pos()), "t.delete does not delete through Collection.Delete")
+		return
+	}
+	delArg := func(k int) (ssa.Value, bool, bool) { return calleeArgAt(delCall, delFn, inner, k) }
 	// the namespace loop: range over clone.Namespaces
 	var nsNext *ssa.Next
 	allInstrs(fn, func(in ssa.Instruction) {
@@ -142,8 +247,10 @@ func ruleTTL1(c *Ctx, r *Reporter) {
 	} else {
 		nonEmpty := guard.Block().Succs[1]
 		var clone *ssa.Call
-		if cc, ok := delCall.Call.Args[3].(*ssa.Call); ok && calleeObj(&cc.Call) == collClone {
-			clone = cc
+		if nsArg, _, okNs := delArg(0); okNs && nsArg != nil {
+			if cc, ok := nsArg.(*ssa.Call); ok && calleeObj(&cc.Call) == collClone {
+				clone = cc
+			}
 		}
 		good := (nonEmpty == delCall.Block() || nonEmpty.Dominates(delCall.Block())) && clone != nil && (nonEmpty == clone.Block() || nonEmpty.Dominates(clone.Block()))
 		r.check(good, "Expire:no-TTL guard", c.pos(guard.Pos()), "the namespace is cloned and deleted from only when it has at least one TTL index", "a namespace without TTL index can be cloned / deleted from (a pass that should change nothing would touch it)")
@@ -182,7 +289,8 @@ func ruleTTL1(c *Ctx, r *Reporter) {
 	r.check(okT, "Expire:$lt operand", c.pos(ltUpdate.Pos()), "a time.Time, which ConvertValue turns into a DateTime: type bracketing (SEM-1) restricts matches to date values", "the $lt operand is not a time.Time: bracketing would compare against another class")
 	// the filter given to delete is the converted $or document
 	filterOK := false
-	if call, ok := delCall.Call.Args[4].(*ssa.Call); ok && strings.HasPrefix(calleeFull(&call.Call), pkgBsonkit+".MustConvert") {
+	filterArg, _, _ := delArg(1)
+	if call, ok := filterArg.(*ssa.Call); ok && strings.HasPrefix(calleeFull(&call.Call), pkgBsonkit+".MustConvert") {
 		if mi, ok := call.Call.Args[0].(*ssa.MakeInterface); ok && stripValue(mi.X) == orUpdate.Map || ok && mi.X == orUpdate.Map {
 			filterOK = true
 		}
@@ -192,9 +300,19 @@ func ruleTTL1(c *Ctx, r *Reporter) {
 	}
 	r.check(filterOK, "Expire:filter passed", c.pos(delCall.Pos()), "t.delete receives the {$or: conditions} document", "t.delete does not receive the $or filter that was built")
 	// no sort / skip / limit
-	lim, okL := constInt(delCall.Call.Args[7])
-	skp, okS := constInt(delCall.Call.Args[6])
-	r.check(okL && okS && lim == 0 && skp == 0 && isNilConst(delCall.Call.Args[5]), "Expire:whole match set", c.pos(delCall.Pos()), "no sort, skip or limit: every expired document is removed", "the expiry delete is windowed: expired documents can be left behind")
+	zeroInt := func(k int) bool {
+		v, zero, ok := delArg(k)
+		if !ok {
+			return false
+		}
+		if zero {
+			return true
+		}
+		n, isC := constInt(v)
+		return isC && n == 0
+	}
+	sortV, sortZero, sortOK := delArg(2)
+	r.check(zeroInt(3) && zeroInt(4) && sortOK && (sortZero || isNilConst(sortV)), "Expire:whole match set", c.pos(delCall.Pos()), "no sort, skip or limit: every expired document is removed", "the expiry delete is windowed: expired documents can be left behind")
 }
 
 // ---- WIN-1/2/3 -----------------------------------------------------------------------
